@@ -614,3 +614,6 @@ SUBCHECKS = [
 from ..core import env_variant  # noqa: E402
 
 SUBCHECKS.append(env_variant(__name__, next(sc for sc in SUBCHECKS if sc.name == "diffuse_arrays"), cases=(6, 10)))
+from ..core import ENVS_CONSTANTS  # noqa: E402
+
+SUBCHECKS.append(env_variant(__name__, next(sc for sc in SUBCHECKS if sc.name == "diffuse_arrays"), envs=ENVS_CONSTANTS, quick=1, thorough=20, cases=(4, 8)))
